@@ -16,7 +16,9 @@ RULE = ("Two and three threads encode documents from a pool of archetypes with d
         "(coloured single tables, page_by table, group_by table, multi-section, figure) under a deterministic "
         "baton scheduler driven by sys.settrace call events inside rtflite. Exhaustive: every schedule with ONE "
         "preemption at every library call boundary for six document pairs and at every third boundary for nine more "
-        "pairs incl. a document with itself (thorough: every boundary of all 81 ordered pairs, plus line-level preemption inside color_service.py / registry.py); generated: "
+        "pairs incl. a document with itself (thorough: every boundary of all 81 ordered pairs, plus line-level preemption inside color_service.py / registry.py); COLD schedules: for four pairs every schedule that preempts at a call only a "
+        "fresh interpreter makes (first-use paths; thorough: also the first occurrence of every call site) runs in a newly spawned "
+        "interpreter in which nothing was encoded before; generated: "
         "schedules with 2-3 preemptions and 3 threads drawn by Hypothesis. Oracle: each thread's string equals "
         "the string the same (freshly built) document gives when encoded alone; an exception in a thread is a "
         "failure. Non-trivial = at least one preemption fired while another thread was unfinished, so its "
@@ -35,6 +37,8 @@ def _cols(n, tag="r"):
     return [{"name": "@N0", "dtype": "str", "values": [f"{tag}{i}a" for i in range(n)]},
             {"name": "@N1", "dtype": "int", "values": list(range(n))}]
 
+
+_HEAD = "@G0:v0 alpha be gamma de eps zeta eta th iota kap alpha be gamma de eps zeta eta th iota kap alpha be gamma de eps zeta eta"   # 1 line at 6.25 in, 2 at 3 in
 
 ARCH = [
     # 0 coloured single table
@@ -90,10 +94,30 @@ ARCH = [
                                    {"name": "@N1", "dtype": "str", "values": [f"r{i}c1" for i in range(6)]}]},
                    "body": {"text_font_size": [9, 14]}, "headers": [{"text": ["@H0.0", "@H0.1"]}]}]},
     {"kind": "table", "sections": [{"df": {"cols": _cols(2, "h")}, "body": {"text_font_size": 14}, "headers": "default"}]},
+    # 13 / 14: the same non-ASCII characters (Latin-1, BMP, astral) in two documents: per-character caches filled on first use
+    {"kind": "table", "sections": [{"df": {"cols": [{"name": "@N0", "dtype": "str", "values": ["caf\u00e9 \u2265 5", "na\u00efve \u2014 \U0001d6fc"]},
+                                                    {"name": "@N1", "dtype": "str", "values": ["\u00b1 2", "\u03b1\u03b2"]}]}, "body": {}, "headers": "default"}],
+     "title": {"text": ["@T0 \u2264 \u00e9"]}},
+    {"kind": "table", "sections": [{"df": {"cols": [{"name": "@N0", "dtype": "str", "values": ["Two \u2014 \u00e9", "\u2265\u2264 \U0001d6fc"]}]},
+                                    "body": {}, "headers": [{"text": ["@H0.0 \u00b1"]}]}], "footnote": {"text": ["@F0 \u03b1 \u00ef"]}},
+    # 15 / 16: the same long page_by heading text in a wide and in a narrow table (wraps to another number of lines), tight nrow
+    {"kind": "table", "page": {"nrow": 9},
+     "sections": [{"df": {"cols": [{"name": "@N0", "dtype": "str", "values": [_HEAD] * 5 + ["@G0:v1"] * 6},
+                                   {"name": "@N1", "dtype": "str", "values": [f"r{i}" for i in range(11)]},
+                                   {"name": "@N2", "dtype": "str", "values": [f"s{i}" for i in range(11)]}]},
+                   "body": {"page_by": ["@N0"]}, "headers": [{"text": ["@H0.0", "@H0.1"]}]}]},
+    {"kind": "table", "page": {"nrow": 9, "col_width": 3.0},
+     "sections": [{"df": {"cols": [{"name": "@N0", "dtype": "str", "values": [_HEAD] * 4 + ["@G0:v2"] * 7},
+                                   {"name": "@N1", "dtype": "str", "values": [f"t{i}" for i in range(11)]},
+                                   {"name": "@N2", "dtype": "str", "values": [f"u{i}" for i in range(11)]}]},
+                   "body": {"page_by": ["@N0"]}, "headers": [{"text": ["@H0.0", "@H0.1"]}]}]},
 ]
 SHARED = {(9, 10): "footnote", (10, 9): "footnote"}
+COLD_PAIRS = [(13, 14), (14, 13), (0, 1), (4, 7)]      # schedules run in a fresh interpreter each (nothing encoded before)
 QUICK_FULL = [(0, 1), (1, 0), (0, 2), (2, 0), (3, 0), (0, 3)]                      # quick: every call boundary
-QUICK_STRIDE = [(2, 4), (4, 2), (5, 6), (6, 5), (4, 7), (7, 4), (7, 7), (2, 8), (8, 2), (9, 10), (10, 9), (11, 12), (12, 11)]   # quick: every 3rd call boundary (thorough: every one)
+QUICK_STRIDE = [(2, 4), (4, 2), (5, 6), (6, 5), (4, 7), (7, 4), (7, 7), (2, 8), (8, 2), (9, 10), (10, 9), (11, 12), (12, 11), (13, 14), (14, 13),
+                (15, 16), (16, 15)]   # quick: every 3rd call boundary (thorough: every one)
+WIDE_STRIDE = {(15, 16): 6, (16, 15): 6, (13, 14): 4, (14, 13): 4}      # the larger documents: every 6th / 4th boundary in quick
 QUICK_PAIRS = QUICK_FULL + QUICK_STRIDE
 
 
@@ -113,12 +137,57 @@ def call_count(i, lines=False):
     return cnt[0]
 
 
+def build_docs(idx, share=None):
+    if share == "footnote":
+        # both documents are built around one and the same RTFFootnote OBJECT
+        import rtflite as rtf
+        kws = [R.build_kwargs(ARCH[i])[0] for i in idx]
+        for kw in kws[1:]:
+            kw["rtf_footnote"] = kws[0]["rtf_footnote"]
+        return [rtf.RTFDocument(**kw) for kw in kws]
+    return [fresh(i) for i in idx]
+
+
+@functools.lru_cache(None)
+def cold_points(a, b, every):
+    """Preemption points of document a's encode in a fresh interpreter: the calls that a warm process does not make
+    (first-use paths: caches being filled, fonts loaded) - first and last occurrence of each such call site - plus the
+    first occurrence of every 6th other call site (`every`: of every call site)."""
+    from ..coldsched import spawn
+    from ..faults import trace_calls
+    prof = spawn({"mode": "profile", "docs": [a, b]})
+    if "sites" not in prof:
+        raise RuntimeError("cold profile failed: " + str(prof)[:300])
+    expected(a)
+    _, warm = trace_calls(fresh(a).rtf_encode)
+    warm = set(warm)
+    first, last = {}, {}
+    for k, site in enumerate(prof["sites"], 1):
+        first.setdefault(site, k)
+        last[site] = k
+    pts = set()
+    others = []
+    for site in first:
+        if site.startswith("import:"):
+            continue          # inside a module import (import lock held): not a preemption point
+        if site not in warm:
+            pts.update((first[site], last[site]))
+        else:
+            others.append(first[site])
+    others.sort()
+    pts.update(others if every else others[::6])
+    return tuple(sorted(pts))
+
+
 def enumerate_cases(tier):
+    for a, b in COLD_PAIRS:
+        for k in cold_points(a, b, tier == "thorough"):
+            yield {"docs": [a, b], "preempt": [[0, k]], "lines": False, "cold": True}
     pairs = QUICK_PAIRS if tier == "quick" else [p for p in itertools.product(range(len(ARCH)), repeat=2)]
     # thread 0 starts, is preempted at its k-th library call, thread 1 then runs its whole encode inside it;
     # the ordered pair (b, a) covers the preemption of the other document
     for a, b in pairs:
-        step = 3 if (tier == "quick" and (a, b) in QUICK_STRIDE) else 1
+        step = WIDE_STRIDE.get((a, b), 3) if (tier == "quick" and (a, b) in QUICK_STRIDE) else 1
         for k in range(1, call_count(a) + 1, step):
             c = {"docs": [a, b], "preempt": [[0, k]], "lines": False}
             if (a, b) in SHARED:
@@ -157,17 +226,17 @@ def budget(tier):
 def check(case) -> Result:
     res = Result()
     idx = case["docs"]
-    if case.get("share") == "footnote":
-        # both documents are built around one and the same RTFFootnote OBJECT
-        import rtflite as rtf
-        kws = [R.build_kwargs(ARCH[i])[0] for i in idx]
-        for kw in kws[1:]:
-            kw["rtf_footnote"] = kws[0]["rtf_footnote"]
-        docs = [rtf.RTFDocument(**kw) for kw in kws]
-    else:
-        docs = [fresh(i) for i in idx]
     exp = [expected(i) for i in idx]
-    out, cnt, fired, hung = run_schedule([d.rtf_encode for d in docs], case["preempt"], lines=case.get("lines", False))
+    if case.get("cold"):
+        from ..coldsched import spawn
+        r = spawn({"mode": "run", "docs": idx, "preempt": case["preempt"], "share": case.get("share")})
+        if "out" not in r:
+            res.harness_error = f"cold schedule did not run: {str(r)[:300]}"
+            return res
+        out, fired, hung = [tuple(o) if o is not None else None for o in r["out"]], r["fired"], r["hung"]
+    else:
+        docs = build_docs(idx, case.get("share"))
+        out, cnt, fired, hung = run_schedule([d.rtf_encode for d in docs], case["preempt"], lines=case.get("lines", False))
     if hung:
         res.harness_error = f"scheduler hung on {case}"
         return res
@@ -182,7 +251,7 @@ def check(case) -> Result:
         elif o[1] != e:
             res.fail("differs", f"{kinds}/doc{idx[tid]}", first_diff(o[1], e))
     res.labels = [f"threads={len(idx)}", f"preemptions={len(case['preempt'])}", "lines" if case.get("lines") else "calls",
-                  "fired_inside" if fired else "not_fired", "kinds=" + kinds]
+                  "fired_inside" if fired else "not_fired", "kinds=" + kinds, "cold_interpreter" if case.get("cold") else "warm_process"]
     res.nontrivial = fired > 0
     return res
 
